@@ -273,3 +273,19 @@ Fixpoint lookup (k : aset) (l : points) : option point :=
 
 Definition total (l : points) : Z := zsum (map (fun kp => fst (snd kp)) l).
 Definition total_count (l : points) : N := fold_right N.add 0 (map (fun kp => snd (snd kp)) l).
+
+(** ** Explicit-bucket histogram data points in full: per-bucket counts, count, sum, min, max *)
+Record hval := { h_counts : list N; h_count : N; h_total : Z; h_min : Z; h_max : Z }.
+Definition hpoints := list (aset * hval).
+
+(** sort.SearchFloat64s(bounds, v) on sorted bounds: the first index whose bound is >= v, i.e. the number of
+    bounds below v; bucket i is (bounds[i-1], bounds[i]].  (The same rule as Lib.MetricsModel.bidx used by C07.) *)
+Definition bidx (bounds : list Z) (v : Z) : nat := length (filter (fun b => (b <? v)%Z) bounds).
+
+Definition hist_nosum (c : scfg) : bool := match s_kind c with AKHist ns _ => ns | _ => false end.
+
+Fixpoint glookup {A} (k : aset) (l : list (aset * A)) : option A :=
+  match l with
+  | [] => None
+  | (k', p) :: r => if aset_eqb k k' then Some p else glookup k r
+  end.
